@@ -12,7 +12,9 @@ use crate::refmodel::{p, Hid, Model, Param};
 use serde_json::{json, Map, Value};
 use std::sync::mpsc;
 
-pub const NCALLS: usize = 18;
+pub const NCALLS: usize = 20;
+/// calls explored to the deeper bound
+pub const CORE: [usize; 10] = [0, 1, 2, 4, 5, 7, 8, 11, 14, 17];
 
 struct Keys {
     a_hid: Hid,
@@ -55,6 +57,8 @@ pub fn call_name(i: usize) -> &'static str {
         "keygen A2 (same seed as A, other top-level Winternitz parameter)",
         "sign A@15 m0 (bytes API, last leaf of the key)",
         "sign A@15 m0 (SigningKey, last leaf of the key)",
+        "sign C@0 (Sha256/32, 8 levels of W1: signature too long, refused)",
+        "sign D@0 (Sha256/24, same parameter bytes as C: must sign)",
     ][i]
 }
 
@@ -143,6 +147,13 @@ pub fn exec_call(seed: u64, i: usize) -> Vec<u8> {
         // the last leaf: the successor is the wiped key on every entry point
         16 => enc_sign(&lib_api::sign(k.a_hid, &ma.make_blob(15, &k.a_params, &k.a_seed), &m0, Cb::Accept, None, Entry::Bytes)),
         17 => enc_sign(&lib_api::sign(k.a_hid, &ma.make_blob(15, &k.a_params, &k.a_seed), &m0, Cb::Accept, None, Entry::Key)),
+        // identical parameter bytes under two hash lengths, one of them beyond the signature-size limit
+        18 | 19 => {
+            let hid = if i == 18 { Hid::S32 } else { Hid::S24 };
+            let p8: Vec<Param> = (0..8).map(|_| p(1, 2)).collect();
+            let seed = det_bytes(seed, "c09-CD", hid.n());
+            enc_sign(&lib_api::sign(hid, &Model::new(hid).make_blob(0, &p8, &seed), &m0, Cb::Accept, None, Entry::Bytes))
+        }
         _ => vec![],
     }
 }
@@ -173,29 +184,36 @@ pub fn pristine(seed: u64) -> Result<Vec<Vec<u8>>, String> {
     Ok(out)
 }
 
-/// child: DFS over every history that starts with `first`, up to `depth` calls; single-threaded
-pub fn child_worker(seed: u64, first: usize, depth: usize, pristine_hex: &str) {
+/// child: DFS over every history that starts with `first`, up to `depth` calls, over the given
+/// alphabet; single-threaded.  The log handed out with a divergence is the complete sequence of calls
+/// this process has executed so far (a legitimate history preceding the observed call).
+pub fn child_worker(seed: u64, first: usize, depth: usize, pristine_hex: &str, alphabet: &[usize]) {
     let pristine: Vec<Vec<u8>> = pristine_hex.split(',').map(|h| hex::decode(h).unwrap_or_default()).collect();
-    let mut log: Vec<u8> = vec![];
-    let mut executed: u64 = 0;
-    let mut nodes: u64 = 0;
-    let mut reported = std::collections::BTreeSet::new();
-    fn rec(seed: u64, call: usize, depth_left: usize, pristine: &[Vec<u8>], log: &mut Vec<u8>, executed: &mut u64, nodes: &mut u64, reported: &mut std::collections::BTreeSet<usize>) {
-        let r = exec_call(seed, call);
-        log.push(call as u8);
-        *executed += 1;
-        *nodes += 1;
-        if r != pristine[call] && reported.insert(call) {
-            println!("DIVERGENCE {}", json!({"call": call, "log": log}));
+    struct W<'a> {
+        seed: u64,
+        pristine: &'a [Vec<u8>],
+        alphabet: &'a [usize],
+        log: Vec<u8>,
+        executed: u64,
+        reported: std::collections::BTreeSet<usize>,
+    }
+    fn rec(w: &mut W, call: usize, depth_left: usize) {
+        let r = exec_call(w.seed, call);
+        w.log.push(call as u8);
+        w.executed += 1;
+        if r != w.pristine[call] && w.reported.insert(call) {
+            println!("DIVERGENCE {}", json!({"call": call, "log": w.log}));
         }
         if depth_left > 1 {
-            for next in 0..NCALLS {
-                rec(seed, next, depth_left - 1, pristine, log, executed, nodes, reported);
+            for i in 0..w.alphabet.len() {
+                let next = w.alphabet[i];
+                rec(w, next, depth_left - 1);
             }
         }
     }
-    rec(seed, first, depth, &pristine, &mut log, &mut executed, &mut nodes, &mut reported);
-    println!("DONE executed={} histories={}", executed, nodes);
+    let mut w = W { seed, pristine: &pristine, alphabet, log: vec![], executed: 0, reported: Default::default() };
+    rec(&mut w, first, depth);
+    println!("DONE executed={} histories={}", w.executed, w.executed);
 }
 
 /// replay of a logged history in a fresh single-threaded process
@@ -362,11 +380,22 @@ pub fn run_c09(ctx: &Ctx) -> (&'static str, Map<String, Value>) {
     for v in entry_point_agreement(&pr) {
         ctx.report(&v, || json!({"engine":"c09","kind":"entry-points","seed":seed}));
     }
-    // histories: one single-threaded child per first call
+    // histories: one single-threaded child process per first call.  Two passes: the complete
+    // alphabet to depth `depth - 1`, the core alphabet to depth `depth` (+1 in the thorough tier)
     let pristine_hex: String = pr.iter().map(hex::encode).collect::<Vec<_>>().join(",");
+    let all: Vec<usize> = (0..NCALLS).collect();
+    let core_depth = if ctx.tier.thorough() { depth + 1 } else { depth };
+    let mut jobs: Vec<(usize, usize, String)> = vec![];
+    let enc = |a: &[usize]| a.iter().map(|x| x.to_string()).collect::<Vec<_>>().join(",");
+    for first in 0..NCALLS {
+        jobs.push((first, depth - 1, enc(&all)));
+    }
+    for first in CORE {
+        jobs.push((first, core_depth, enc(&CORE)));
+    }
     let outs: Vec<Result<String, String>> = {
         use rayon::prelude::*;
-        (0..NCALLS).into_par_iter().map(|first| self_exe(&["c09-worker".into(), seed.to_string(), first.to_string(), depth.to_string(), pristine_hex.clone()])).collect()
+        jobs.par_iter().map(|(first, d, alpha)| self_exe(&["c09-worker".into(), seed.to_string(), first.to_string(), d.to_string(), pristine_hex.clone(), alpha.clone()])).collect()
     };
     let mut executed = 0u64;
     let mut histories = 0u64;
@@ -449,14 +478,16 @@ pub fn run_c09(ctx: &Ctx) -> (&'static str, Map<String, Value>) {
     m.insert("traces_validated_against_impl".into(), json!(executed + schedules * 6));
     m.insert("evaluations".into(), json!(executed + schedules * 6 + free_calls));
     m.insert("distinct_nontrivial".into(), json!(histories + schedules));
-    m.insert("histories_depth".into(), json!(depth));
+    m.insert("histories_depth_full_alphabet".into(), json!(depth - 1));
+    m.insert("histories_depth_core_alphabet".into(), json!(core_depth));
+    m.insert("core_alphabet".into(), json!(CORE.iter().map(|c| call_name(*c)).collect::<Vec<_>>()));
     m.insert("histories".into(), json!(histories));
     m.insert("schedules".into(), json!(schedules));
     m.insert("schedule_assignments".into(), json!(triples.len() * triples.len()));
     m.insert("free_running_calls_SAMPLING".into(), json!(free_calls));
     m.insert("structural_side_condition_holds".into(), json!(clean));
     m.insert("alphabet".into(), json!((0..NCALLS).map(call_name).collect::<Vec<_>>()));
-    m.insert("rule".into(), json!(format!("every sequence of calls over an 18-call alphabet up to depth {} (state = the history, no merging), each executed call compared with the pristine result of the same call from a fresh process; all 20 interleavings of two OS threads x three calls for {} call assignments under a baton scheduler", depth, triples.len() * triples.len())));
+    m.insert("rule".into(), json!(format!("every sequence of calls over the full 20-call alphabet up to depth {} and over the 10-call core alphabet one call deeper (two deeper in the thorough tier) (state = the history, no merging), each executed call compared with the pristine result of the same call from a fresh process; all 20 interleavings of two OS threads x three calls for {} call assignments under a baton scheduler", depth - 1, triples.len() * triples.len())));
     m.insert("exhaustive".into(), json!(true));
     ("model_checking", m)
 }
